@@ -57,12 +57,18 @@ def _build(case):
 
 def check_membership(case):
     A, f = _build(case)
-    N, M = f.shape
+    if case["seed_tex"] % 3 == 1:  # Fortran-ordered inputs (same values)
+        A, f = np.asfortranarray(A), np.asfortranarray(f)
+    elif case["seed_tex"] % 3 == 2:  # nested lists, as the docstring allows
+        A, f = A.tolist(), f.tolist()
+    A_arr, f_arr = np.asarray(A), np.asarray(f)
+    N, M = f_arr.shape
     ns = case["n_samples"]
     kw = {} if ns is None else {"n_samples": ns}
-    A_in, f_in = A.copy(), f.copy()
+    A_in, f_in = A_arr.copy(), f_arr.copy()
     oA, of = sut(S.resample_orientations, A, f, seed=case["seed"], **kw)
-    require(np.array_equal(A, A_in) and np.array_equal(f, f_in), "inputs were modified")
+    require(np.array_equal(np.asarray(A), A_in) and np.array_equal(np.asarray(f), f_in), "inputs were modified")
+    A, f = A_arr, f_arr
     n_out = M if ns is None else ns
     require(oA.shape == (N, n_out, 3, 3), f"orientations output shape {oA.shape}, expected {(N, n_out, 3, 3)}")
     require(of.shape == (N, n_out), f"fractions output shape {of.shape}, expected {(N, n_out)}")
